@@ -256,7 +256,8 @@ pub fn gen(rng: &mut Rng, thorough: bool, out: &mut Vec<String>) {
                 }
             }
             19 => out.push(format!("xfe cyc {} {}", fx, rng.below(24))),
-            20 => out.push(format!("bfe cycrun {} {}", a, rng.below(200))),
+            // n >= 1: run_bfe_more has no verdict for n = 0 (a bound of 1 acts like 2), the model would answer `running`
+            20 => out.push(format!("bfe cycrun {} {}", a, 1 + rng.below(199))),
             21 => out.push(format!("xfe newconst {}", a)),
             22 => out.push(format!("xfe is_zero {}", fx)),
             23 => out.push(format!("xfe is_one {}", if rng.coin(1, 3) { format!("({};{};{})", raw(1), raw(0), raw(0)) } else { fx })),
